@@ -44,9 +44,18 @@ Print Assumptions C02_fama_ast.
 Theorem C02_uvl_ptrs : forall d pm, uvl_read_cst d = Ok pm -> ptr_wf pm = true.
 Proof. exact uvl_read_ptr_wf. Qed.
 Print Assumptions C02_uvl_ptrs.
-Theorem C02_uvl_ast : forall d pm, uvl_read_cst d = Ok pm -> forallb (fun c => node_shape_ok' (c_ast c)) (pctcs pm) = true.
+(* [ucst_ok]: no binary node carries the unary operator NOT — the grammar has no such production, so no
+   parse tree violates it (the harness conversion of the ANTLR tree never builds one; the writer's trees
+   satisfy it: C02_uvl_writer_trees).  Without it the statement is false of the reader model
+   (UvlFacts.uvl_read_ctc_shape_false). *)
+Theorem C02_uvl_ast : forall d pm,
+  forallb ucst_ok (match d_ctcs d with Some l => l | None => [] end) = true ->
+  uvl_read_cst d = Ok pm -> forallb (fun c => node_shape_ok' (c_ast c)) (pctcs pm) = true.
 Proof. exact uvl_read_ctc_shape. Qed.
 Print Assumptions C02_uvl_ast.
+Theorem C02_uvl_writer_trees : forall n c, node_cst n = Ok c -> ucst_ok c = true.
+Proof. exact node_cst_ucst_ok. Qed.
+Print Assumptions C02_uvl_writer_trees.
 
 Theorem C02_afm_ptrs : forall d pm, afm_read_cst d = Ok pm -> ptr_wf pm = true.
 Proof. exact afm_read_ptr_wf. Qed.
